@@ -766,12 +766,14 @@ PROTOCOLS["Allowed"] = AllowedProtocol()
 
 def allowed_char(s, c):
     """Character c (folded to upper case, as NumEdit does) belongs to the widget's alphabet.
-    NOTE: this is the widget's *own* membership test `ch.upper() in allowed`, with str.upper() and the container opaque.
-    The literal reading of the statement ("no character outside the alphabet") is stronger and is NOT what is proved
-    here: with `allowed` a str the test is a substring test on the upper-cased character, so e.g. 'ı'.upper() == 'I',
-    'ſ'.upper() == 'S', 'ﬆ'.upper() == 'ST' pass it for large bases (found by the bounded side; IntegerEdit('', None, 36)
-    accepts the key 'ı').  That reading needs the real str.upper / substring semantics: bounded only."""
-    return mk_bool(_ALLOWED_HAS(s._allowed.e, CHAR_UPPER(c.e)))
+    NOTE: this is the widget's *own* membership test `ch.isascii() and ch.upper() in allowed`, with str.upper(), "is
+    ASCII" and the container opaque.  Before fix: commit 07a0f7d the ASCII test was missing and 'ı', 'ſ', 'ﬆ' passed
+    for large bases (found by the bounded side).  The literal reading of the statement ("no character outside the
+    alphabet") needs the real str.upper / substring semantics: bounded only."""
+    # since fix: commit 07a0f7d the character itself must be ASCII as well (so 'ı', 'ſ', 'ﬆ' are refused)
+    from pyvc.text import CHAR_ISASCII
+
+    return both(mk_bool(CHAR_ISASCII(c.e)), mk_bool(_ALLOWED_HAS(s._allowed.e, CHAR_UPPER(c.e))))
 
 
 NUMEDIT = StrEditShape(_numedit.NumEdit, dict(_allowed=Opaque("Allowed"), _trim_leading_zeros=Bool, _allow_negative=Bool))
